@@ -197,7 +197,23 @@ func (b *Built) defineNode(n int, g *getoptions.GetOpt) {
 		}
 		g.HelpSynopsisArg(FromAtoms(nd.Args[i]), d)
 	}
-	optsLate := cfg.OptsLate && cfg.HelpOpt() != 0
+	kids := []int{}
+	for _, c := range cfg.children(n) {
+		if !cfg.Nodes[c-1].IsHelp {
+			kids = append(kids, c)
+		}
+	}
+	// options declared after the commands of the level reach those commands when the help command is declared (at the
+	// very end) or as soon as one more command is created at this level: without a help command the options are
+	// declared before the last command
+	optsAt := 0 // number of commands created before the options are declared
+	if cfg.OptsLate {
+		if cfg.HelpOpt() != 0 {
+			optsAt = len(kids)
+		} else if len(kids) >= 2 {
+			optsAt = len(kids) - 1
+		}
+	}
 	defineOpts := func() {
 		for i, o := range cfg.Opts {
 			if o.Node == n && !o.IsHelpOpt {
@@ -205,18 +221,14 @@ func (b *Built) defineNode(n int, g *getoptions.GetOpt) {
 			}
 		}
 	}
-	if !optsLate {
-		defineOpts()
-	}
-	for _, c := range cfg.children(n) {
-		cn := cfg.Nodes[c-1]
-		if cn.IsHelp {
-			continue
+	for k, c := range kids {
+		if k == optsAt {
+			defineOpts()
 		}
-		cg := g.NewCommand(FromAtoms(cn.Name), FromAtoms(cn.Desc))
+		cg := g.NewCommand(FromAtoms(cfg.Nodes[c-1].Name), FromAtoms(cfg.Nodes[c-1].Desc))
 		b.defineNode(c, cg)
 	}
-	if optsLate {
+	if optsAt >= len(kids) {
 		defineOpts()
 	}
 }
